@@ -71,6 +71,27 @@ def check(ctx):
         ctx._record_violation(ob)
     else:
         ctx.undecided.append('%s: no result (rc=%s) %s' % (name, rc, (out + err)[-300:]))
+    # directed: raw entity-like texts followed by characters of every UTF-8 width (byte-offset slicing of str code)
+    k = '8' if thorough else '6'
+    rc, out, err, secs = run([b, 'api', 'rawtexts', k], timeout=1800)
+    ctx.t('native-enum', secs)
+    lines_ = out.strip().splitlines() or ['']
+    kf = [i for i, l in enumerate(lines_) if l.startswith('FAIL')]
+    line = ' '.join(lines_[kf[0]:]) if kf else lines_[-1]
+    name = 'native/api-raw-entity-texts'
+    bound = ('texts prefix ++ tail ++ end as element text and as attribute value: 16 prefixes of the entity / character-reference syntax (& &# &#x &#X &#1 &#x1 &a &am &amp &lt &quot; &#x10FFFF &#1114111 &#xD800 a&#x U+00E4&#), '
+             'every tail of up to %s characters over {a, U+00E4, U+20AC, U+1F600} (UTF-8 widths 1-4), endings "", ";", ";b"' % k)
+    if line.startswith('OK'):
+        ctx.add(Obligation(ctx.prop, name, 'native-eval', 'bounded', 'discharged', seconds=secs, bound=bound,
+                           detail='load_buffer strict+lenient and check_buffer: no panic; every error/warning line inside the input; a buffer that loads is accepted by check_buffer [%s]' % line[3:]))
+    elif line.startswith('FAIL'):
+        msg, _, dochex = line[5:].partition(' :: document ')
+        ob = ctx.add(Obligation(ctx.prop, name, 'native-eval', 'bounded', 'failed', seconds=secs, bound=bound, detail=msg))
+        ob.witness = dict(input_hex=dochex.strip(), input_text=bytes.fromhex(dochex.strip()).decode('utf-8', 'replace'), observed=msg, via='public API: AutosarModel::load_buffer / check_buffer',
+                          replay=['api', 'lines1', dochex.strip()])
+        ctx._record_violation(ob)
+    else:
+        ctx.undecided.append('%s: no result (rc=%s) %s' % (name, rc, (out + err)[-300:]))
     return ctx.finish(
         explanation='Verus proves, on the real text of ArxmlLexer::{new,next,read_*}, count_lines and trim_byte_string, for buffers of every length: no index/slice/overflow panic, termination (decreases), the representation invariant, 1 <= line <= 1+newlines for every token and error, and progress (measure decreases on every non-EOF token). Kani and a native exhaustive enumeration cross-check the unmodified text on short inputs (bounded, listed separately). Also in the unit: the line and funnel functions of the parser, verify_end_of_input, check_arxml_header (the probe terminates) and the slicing arithmetic of parse_attribute_text (attribute splitting: no out-of-range slice and termination for every byte string; its lookup/validation block is abstracted). Not covered: parse_character_data (trim_byte_string and unescape_string are under contract separately), parse_element/parse_arxml (element graph).',
         checker_cmd='verus generated/{trim,lexer}.rs --output-json --time (regenerated from /repo working tree on every run); cargo kani --harness trim_len* --harness count_lines_len*',
